@@ -103,7 +103,8 @@ pub use crate::cluster::metadata::merge_channel::verif_api::{
     VerifMergeReceiver, VerifMergeSender, verif_merge_channel,
 };
 pub use crate::cluster::metadata::update::verif_api::{
-    VerifChanges, VerifRefreshReceiver, VerifRefreshSender, VerifTaken, VerifUpdateSlot,
+    VerifChanges, VerifRefreshReceiver, VerifRefreshSender, VerifRoutes, VerifTaken,
+    VerifUpdateSlot,
 };
 pub use crate::network::verif_api::{VerifHandlerLookup, VerifHandlerMap};
 pub use crate::policies::speculative_execution::verif_api::speculative_execute;
